@@ -410,7 +410,11 @@ class P:
                 continue
             if c == '$':
                 if self.peek(2) == "$'":
-                    j = self.s.find("'", self.i + 2)
+                    j = self.i + 2
+                    while j < len(self.s) and self.s[j] != "'":
+                        j += 2 if self.s[j] == '\\' else 1
+                    if j >= len(self.s):
+                        self.fail('unterminated $\' quote')
                     flush()
                     parts.append(('ansi', self.s[self.i + 2:j]))
                     self.i = j + 1
@@ -720,6 +724,16 @@ def _parse_word(self, stop=None, stop_set=None, cond=False):
             parts.append(('dq', self.parse_dq()))
             continue
         if c == '$':
+            if self.peek(2) == "$'":
+                j = self.i + 2
+                while j < len(self.s) and self.s[j] != "'":
+                    j += 2 if self.s[j] == '\\' else 1
+                if j >= len(self.s):
+                    self.fail('unterminated $\' quote')
+                flush()
+                parts.append(('ansi', self.s[self.i + 2:j]))
+                self.i = j + 1
+                continue
             p = self.parse_dollar()
             if p is None:
                 lit.append('$')
